@@ -169,6 +169,13 @@ FAMILIES = {
         sharing=False,
         runs={"quick": [dict(mode="bfs", max_nodes=3)], "thorough": [dict(mode="bfs", max_nodes=3)]},
         shards=[["opt"]], shard_defs={"opt": "SK_opt"}),
+    "effparams": dict(
+        consts=dict(Raises="NoRaises", Kinds="FE_Kinds", Paths="FE_Paths", Consts="None0", Tmpls="None0",
+                    Fns="None0", Bodies="FE_Bodies", DispVals="NoSeq", Preds="None0", Presets="None0",
+                    MapPaths="None0", Leaves="FE_Leaves", EffSets="FE_Effs"),
+        sharing=False,
+        runs={"quick": [dict(mode="bfs", max_nodes=3)], "thorough": [dict(mode="bfs", max_nodes=4)]},
+        shards=[["ds"]], shard_defs={"ds": "SK_ds"}),
     "cases": dict(
         consts=dict(Raises="NoRaises", Kinds="FCS_Kinds", Paths="FCS_Paths", Consts="FCS_Consts", Tmpls="None0",
                     Fns="None0", Bodies="None0", DispVals="NoSeq", Preds="FCS_Preds", Presets="None0",
